@@ -68,8 +68,7 @@ class DataFrame(Entity, DataSet):
             new_da.append(row_tuple)
         farr = np.ascontiguousarray(new_da, dtype=dt)
         del self._h5group.group['data']
-        self._h5group.group['data'] = farr
-        self._h5group.create_dataset("data", (self.shape[0],), dt)
+        self._h5group.create_dataset("data", (len(farr),), dt)
         self.write_direct(farr)
 
     def append_rows(self, data):
